@@ -104,6 +104,63 @@ def run(ctx):
 
     r08c(ctx)
 
+    # R08b (cont.): every incoming edge except a self-loop is collected: the push of the second loop is guarded by
+    # nothing but the iterator and a comparison of the edge's origin with the node itself
+    b = fa.body(DB + "node_edges")
+    if b:
+        pushes = [i for i, t in cfg.calls(b) if cfg.callee(t) == "std::vec::Vec::push"]
+        bad = []
+        for i_sw, blk in enumerate(b.blocks):
+            t = blk["term"]
+            if blk.get("cleanup") or t["k"] != "switch" or t.get("x") in ("desugar:ForLoop", "desugar:QuestionMark"):
+                continue
+            pl = cfg.op_place(t["d"])
+            if not pl:
+                continue
+            # does this switch decide whether some push happens?
+            decides = False
+            for tgt in cfg.succs(b, i_sw):
+                for p in pushes:
+                    if cfg.find_path(b, [0], [p], removed_edges=[(i_sw, tgt)]) is None:
+                        decides = True
+            if not decides:
+                continue
+            dc = cfg.def_call(b, pl[0])
+            okg = False
+            if dc and (cfg.callee_decl(dc[1]) or "").endswith(("PartialEq::ne", "PartialEq::eq")):
+                roots = {(cfg.op_origin(b, a) or (None,))[0] for a in dc[1]["a"]}
+                okg = 2 in roots       # compared with the node's own index (parameter `graph_index`)
+            ds = cfg.defs(b).get(pl[0], [])
+            if ds and ds[0][0] == "assign" and ds[0][2]["k"] == "discr":
+                okg = True             # Option / Result plumbing (`?`, ok_or)
+            if not okg:
+                bad.append(b.loc(i_sw))
+        ctx.ob("R08b", "node_edges:no-extra-filter", not bad,
+               "incoming edges are skipped only when their origin is the node itself (self-loop already collected)" if not bad
+               else "node_edges filters edges by an additional condition at %s: some incident edges (and their values) would "
+               "survive the removal of the node" % bad, b.where)
+
+    # R08e: a freed slot is fully reset, so an element reusing the id inherits nothing: every per-slot setter of
+    # GraphData is applied to the freed (or to the reused) index
+    setters = sorted(f["name"] for p, f in fa.fns.items() if f.get("trait_decl") == "agdb::graph::GraphData" and
+                     f["name"].startswith("set_") and len(f["inputs"]) == 4 and "GraphIndex" in f["inputs"][2])
+    fb, gb = fa.body(G + "free_index"), fa.body(G + "get_free_index")
+    if fb and gb:
+        called = set()
+        for body, pidx in ((fb, 3),):
+            for i, t in cfg.calls(body):
+                nme = (cfg.callee_decl(t) or "").split("::")[-1]
+                if nme in setters and len(t["a"]) > 2:
+                    o = cfg.op_origin(body, t["a"][2])
+                    if o and o[0] == pidx:
+                        called.add(nme)
+        missing = [s for s in setters if s not in called]
+        ctx.ob("R08e", "free_index:slot-fully-reset", bool(setters) and not missing,
+               "free_index resets %s of the freed slot" % setters if setters and not missing else
+               "free_index does not reset %s of the freed slot: a node or edge reusing the id inherits stale links / counts" % missing,
+               fb.where)
+        ctx.floor("R08e", "per-slot setters of GraphData", len(setters), 4)
+
     # R08d
     b = ctx.anchor("R08d", DB + "graph_index")
     if b:
